@@ -92,6 +92,7 @@ type scase struct {
 	Kind   string     `json:"kind"`
 	Glob   globalSpec `json:"init"`
 	Progs  [][]cop    `json:"progs"`
+	Tail   []cop      `json:"tail,omitempty"` // issued after all goroutines have returned
 	Final  cobs       `json:"final"`
 	Iter   int        `json:"iter"`
 	Thread int        `json:"threads"`
@@ -649,10 +650,25 @@ func corpus(out *gal.Out) {
 var suspectOnly bool
 
 // suspicious mirrors final_ok of LogCtxJudge.v.
-func suspicious(in globalSpec, progs [][]cop, fin cobs) bool {
+func suspicious(in globalSpec, progs [][]cop, tail []cop, fin cobs) bool {
 	if fin.Full != nil {
 		return true
 	}
+	// the tail's fields come last, in its order; its last SetLevel decides the level
+	var tf []uint64
+	tailLevel, tailSets := 0, false
+	for _, o := range tail {
+		switch o.Op {
+		case "With":
+			tf = append(tf, o.Fields...)
+		case "SetLevel":
+			tailLevel, tailSets = o.Level, true
+		}
+	}
+	if len(fin.Fields) < len(tf) || !same(fin.Fields[len(fin.Fields)-len(tf):], tf) {
+		return true
+	}
+	fin = cobs{Fields: fin.Fields[:len(fin.Fields)-len(tf)], Mask: fin.Mask}
 	want := map[uint64]int{}
 	nadd := 0
 	var lasts []int
@@ -678,6 +694,9 @@ func suspicious(in globalSpec, progs [][]cop, fin cobs) bool {
 			l = *in.Wrap
 		}
 		lasts = []int{l}
+	}
+	if tailSets {
+		lasts = []int{tailLevel}
 	}
 	if len(fin.Fields) != len(in.Fields)+nadd || !same(fin.Fields[:len(in.Fields)], in.Fields) {
 		return true
@@ -737,19 +756,43 @@ func stress(out *gal.Out, g *gen, n int) {
 			log.SetLevel(base, zapcore.Level(w))
 		}
 		nth := 2 + g.r.IntN(7)
-		progs := make([][]cop, nth)
-		for t := range progs {
-			k := 1 + g.r.IntN(4)
-			for i := 0; i < k; i++ {
-				if g.r.IntN(4) == 0 {
-					progs[t] = append(progs[t], cop{Op: "SetLevel", Level: g.level()})
-				} else {
-					f := g.fields(2)
-					if len(f) == 0 {
-						f = []uint64{g.next}
-						g.next++
+		var progs [][]cop
+		tail := []cop{}
+		if it%5 < 2 {
+			// goroutines that each request a different level, then one of these levels is
+			// requested once more after all have returned
+			nth = 2 + g.r.IntN(2)
+			perm := g.r.Perm(4)
+			progs = make([][]cop, nth)
+			for t := range progs {
+				progs[t] = []cop{{Op: "SetLevel", Level: perm[t] - 1}}
+			}
+			tail = []cop{progs[g.r.IntN(nth)][0]}
+		} else {
+			progs = make([][]cop, nth)
+			var sets []cop
+			for t := range progs {
+				k := 1 + g.r.IntN(4)
+				for i := 0; i < k; i++ {
+					if g.r.IntN(4) == 0 {
+						o := cop{Op: "SetLevel", Level: g.level()}
+						progs[t], sets = append(progs[t], o), append(sets, o)
+					} else {
+						f := g.fields(2)
+						if len(f) == 0 {
+							f = []uint64{g.next}
+							g.next++
+						}
+						progs[t] = append(progs[t], cop{Op: "With", Fields: f})
 					}
-					progs[t] = append(progs[t], cop{Op: "With", Fields: f})
+				}
+			}
+			if g.r.IntN(3) == 0 {
+				if len(sets) > 0 && g.r.IntN(2) == 0 {
+					tail = append(tail, sets[g.r.IntN(len(sets))])
+				} else {
+					tail = append(tail, cop{Op: "With", Fields: []uint64{g.next}})
+					g.next++
 				}
 			}
 		}
@@ -772,16 +815,24 @@ func stress(out *gal.Out, g *gen, n int) {
 		}
 		close(start)
 		wg.Wait()
+		for _, o := range tail {
+			if o.Op == "With" {
+				log.WithFields(base, zfields(o.Fields)...)
+			} else {
+				log.SetLevel(base, zapcore.Level(o.Level))
+			}
+		}
 		fin := probe(base, logs)
 		if suspectOnly {
-			if !suspicious(gs, progs, fin) || out.N >= 12 {
+			if !suspicious(gs, progs, tail, fin) || out.N >= 12 {
 				continue
 			}
 		}
 		t := "({| sc_init := " + gCore(gs) + "; sc_progs := " +
 			gal.ListOf(progs, func(p []cop) string { return gal.ListOf(p, gCop) }) +
+			"; sc_tail := " + gal.ListOf(tail, gCop) +
 			"; sc_final := " + gObs(fin) + "; sc_children := [] |})%N"
-		out.Case(t, scase{"stress", gs, progs, fin, it, nth})
+		out.Case(t, scase{"stress", gs, progs, tail, fin, it, nth})
 	}
 }
 
